@@ -592,6 +592,36 @@ def nested_with(outer_decorator: bool, deep: bool, inner_flag: int, inner_code: 
     return _nested(outer_decorator, 2 if deep else 1, 0, inner_flag, inner_code, catch, outer_code, outer_serializable)
 
 
+def nested_serializable_refusal(outer_opt: int, deep: bool) -> bool:
+    """`with db_session(serializable=True)` inside a session that is not serializable is refused (the outer session's transaction
+    is already running at another level), whatever other options the outer session has.
+    outer_opt: 0 plain, 1 immediate=True, 2 optimistic=False, 3 serializable=True (the only one that may accept), 4 strict=True
+
+    pre: 0 <= outer_opt <= 4
+    post: _
+    """
+    _begin()
+    okw = {} if outer_opt == 0 else {'immediate': True} if outer_opt == 1 else {'optimistic': False} if outer_opt == 2 else {'serializable': True} if outer_opt == 3 else {'strict': True}
+    refused = ran = False
+    try:
+        with db_session(**okw):
+            write(0)
+            try:
+                if deep:
+                    with db_session:
+                        with db_session(serializable=True):
+                            ran = True; write(1)
+                else:
+                    with db_session(serializable=True):
+                        ran = True; write(1)
+            except core.TransactionError:
+                refused = True
+    except Exception:
+        return ok(False)
+    want_refused = outer_opt != 3
+    return ok(refused == want_refused and ran == (not want_refused) and conn.committed == (rows(0) if want_refused else rows(0) + rows(1)) and clean_after())
+
+
 # ------------------------------------------------------------------------------------------------ generators
 GEN_OPTIONS = {}          # extra db_session options of the generator harnesses (set by generator_options)
 GEN_FLUSH = [False]       # segments that do not commit flush() before yielding
@@ -842,6 +872,6 @@ def bottle_route(code: int, arg: int) -> bool:
     return ok(good and runs == [(arg, 'k')] and clean_after() and plugin.api == 2 and plugin.name == 'pony')
 
 
-HARNESSES = ('generator_options', 'retry_tuple_tuple', 'retry_callable_tuple', 'retry_tuple_callable', 'retry_callable_callable',
+HARNESSES = ('nested_serializable_refusal', 'generator_options', 'retry_tuple_tuple', 'retry_callable_tuple', 'retry_tuple_callable', 'retry_callable_callable',
              'retry_default_exceptions', 'context_manager', 'context_manager_refusals', 'nested_decorated_in_with', 'nested_decorated_in_decorated', 'nested_with', 'generator',
              'generator_refusals', 'flask_request', 'bottle_route')
